@@ -33,7 +33,7 @@ ARR_DT = ["bool", "int8", "int16", "int32", "int64", "uint8", "uint16", "uint32"
 WRAPPERS = {"simple_2d": dict(t=True, z=False, y=True, x=True),
             "simple_3d": dict(t=True, z=True, y=True, x=True),
             "simple_temporal": dict(t=True, z=False, y=False, x=False)}
-K_EMPTY_VLEN = "C20:varlength-empty-graph-through-write-arrays"
+K_EMPTY_VLEN = "C20:varlength-empty-graph-D15"
 
 
 def np_name(d):
@@ -230,7 +230,7 @@ def oracle(case, o):
     bad = []
     if "exc" in o:
         key = "C20:exception"
-        if n == 0 and e["vl"] and case["helper"] != "dummy":
+        if n == 0 and e["vl"] and o["exc"] == "IndexError":
             key = K_EMPTY_VLEN
         return [(key, f"accepted parameters raise {o['exc']}: {o.get('msg', '')}", "a valid geff")]
     # nodes
@@ -497,13 +497,13 @@ def corpus():
 
 
 def probe_vlen_ok():
-    """does write_arrays accept a var-length property on an empty node set on this tree? (D15)"""
+    """does create_props_metadata accept an empty object array on this tree? (defect D15, owned by C01)"""
     try:
-        from geff.testing.data import create_mock_geff
+        from geff_spec.utils import create_props_metadata
 
-        create_mock_geff("uint8", {"position": "float64", "time": "float64"}, True, 0, 0, include_varlength=True)
+        create_props_metadata("p", {"values": np.empty((0,), dtype=object), "missing": None})
         return True
-    except Exception:  # noqa: BLE001
+    except IndexError:
         return False
 
 
@@ -540,7 +540,7 @@ def run(ck: common.Check):
     ck.extra["edge_grid_exhaustive_upto_nodes"] = nmax
 
     vlen_ok = probe_vlen_ok()
-    ck.extra["write_arrays_accepts_empty_varlength (D15 repaired on this tree)"] = vlen_ok
+    ck.extra["create_props_metadata_accepts_empty_object_array (D15 repaired on this tree)"] = vlen_ok
     obs = common.pmap(observe, cases, chunksize=32)
 
     reqs, arrs = [], []
